@@ -45,9 +45,11 @@ class OsuToSM(ConvertBase):
         # The file offset is the time of beat 0, the first timing point
         sms.offset = osu.bpms.first_offset() if len(osu.bpms) else 0.0
 
-        sm.chart_type = SMMapChartTypes.get_type(osu.stack().column.max() + 1)
+        # The key count is the chart's own: a chart need not use its top columns
+        keys = int(osu.circle_size)
+        sm.chart_type = SMMapChartTypes.get_type(keys)
 
         if raise_bad_mode and not sm.chart_type:
-            raise ValueError(f"Keys {int(sm.stack().column.max() + 1)} isn't supported")
+            raise ValueError(f"Keys {keys} isn't supported")
 
         return sms
